@@ -602,8 +602,9 @@ Proof.
       * injection H as <- <- <- <- <-. exists [(DConn c, b)]. split; [reflexivity|]. apply one_msg_single. reflexivity.
       * exact (IH _ _ _ _ _ _ _ _ _ _ _ _ _ _ H).
     + destruct (existsb _ (w_tcp_listeners w)).
-      * apply IH in H. destruct H as (extra & -> & O). rewrite <- app_assoc.
-        eexists. split; [reflexivity|]. cbn [app]. apply one_msg_dial. exact O.
+      * (* the round that dials also writes, on the connection it has just opened *)
+        injection H as <- <- <- <- <-.
+        eexists. split; [reflexivity|]. apply one_msg_dial. apply one_msg_single. reflexivity.
       * injection H as <- <- <- <- <-. exists []. rewrite app_nil_r. split; [reflexivity|apply one_msg_nil].
 Qed.
 
